@@ -91,7 +91,9 @@ def backwardCheckedU64 (start count : Nat) : Option Nat :=
       else if addr / 2^47 = 0x1fffd then none
       else some addr
 
-def add (cfg : Cfg) (a rhs : Nat) : R Nat := (addU64 cfg a rhs).bind new
+/-- `VirtAddr + u64`: `VirtAddr::new(self.0.checked_add(rhs).unwrap())` (checked since the
+`fix:` commit for C07; before it was the profile-dependent `self.0 + rhs`). -/
+def add (a rhs : Nat) : R Nat := (R.ofOption (checkedAdd a rhs)).bind new
 
 def sub (a rhs : Nat) : R Nat := (R.ofOption (checkedSub a rhs)).bind new
 
@@ -114,7 +116,8 @@ def alignDown (a align : Nat) : R Nat := X86.alignDown a align
 
 def isAligned (a align : Nat) : R Bool := (alignDown a align).map (fun r => r == a)
 
-def add (cfg : Cfg) (a rhs : Nat) : R Nat := (addU64 cfg a rhs).bind new
+/-- `PhysAddr + u64`: `PhysAddr::new(self.0.checked_add(rhs).unwrap())`. -/
+def add (a rhs : Nat) : R Nat := (R.ofOption (checkedAdd a rhs)).bind new
 
 def sub (a rhs : Nat) : R Nat := (R.ofOption (checkedSub a rhs)).bind new
 
